@@ -52,13 +52,125 @@ Proof.
       * assert (Hp : opend ob = []). { apply obj_ok_pend; auto. congruence. }
         rewrite Hp in Hocc. simpl in Hocc. apply cocc_in. lia.
       * simpl in Hocc. apply cocc_in. lia.
-    + exfalso. destruct K as (_ & _ & _ & _ & _ & _ & _ & _). rewrite Hs in B.
-      (* AWait with no co_await left: k = 0, but then B has nothing to say; use shape through W *)
-      clear - B Hs Ha Hco I.
-      (* a suspended coroutine has a current co_await: otherwise it could not have entered AWait *)
-      admit.
+    + rewrite Hs in B. destruct B as [B _]. discriminate.
   - intros x Hs. destruct (D2 x) as (q & Hq). rewrite Hs. reflexivity. exists q. split; auto.
     pose proof (D1 x q Hq) as Y. rewrite Hs in Y. simpl in Y. rewrite Nat.eqb_refl in Y. apply cocc_in. lia.
-Abort.
+Qed.
+
+(* when nothing is in flight a coroutine that is still suspended awaits something that has not been fulfilled *)
+Lemma quiescent_waits :
+  quiescent s = true -> cst co = AWait ->
+  exists a o, capt co = Some a /\ In o (aobjs a) /\ ocomplete (objs s) o = false.
+Proof.
+  intros Hq Hs. destruct never_lost as [L _]. destruct (L Hs) as (a & o & ob & Ha & Hin & Ho & Hw).
+  exists a, o. split; auto. split; auto. unfold ocomplete, complete. rewrite Ho.
+  destruct (ow ob) eqn:Eow; auto. exfalso.
+  unfold quiescent in Hq. apply andb_true_iff in Hq. destruct Hq as [Hq _]. apply andb_true_iff in Hq. destruct Hq as [_ Hq].
+  rewrite forallb_forall in Hq. specialize (Hq ob (nth_error_In _ _ Ho)). destruct (opend ob); auto. discriminate.
+Qed.
+
+(* the awaited value; the coroutine's own Result *)
+Lemma outcome_value :
+  forall r a, In r (resumes co) -> nth_error (prog co) (rk r) = Some a ->
+    match aconsume a with
+    | Some (o, _) => exists ob v, nth_error (objs s) o = Some ob /\ oslot ob = Some v /\ rval r = Some (Some v)
+    | None => rval r = None
+    end.
+Proof.
+  destruct K as (_ & _ & _ & _ & (_ & E2 & _) & _). intros r a Hi Ha.
+  rewrite Forall_forall in E2. destruct (E2 r Hi) as (_ & _ & R3). destruct (R3 a Ha) as (_ & _ & A3). exact A3.
+Qed.
+
+Lemma outcome_own :
+  (cend co = Running <-> (cst co <> AFinal /\ cst co <> ADone)) /\
+  (cend co <> Running ->
+     exists ob, nth_error (objs s) (own co) = Some ob /\
+       oslot ob = Some (match cend co with Returned r => r | Threw e => e | _ => RStop end)) /\
+  (forall r, cend co = Returned r -> pc co = length (prog co)) /\
+  (forall e, cend co = Threw e ->
+     exists l r a o, resumes co = l ++ [r] /\ rval r = Some (Some e) /\ (e = RStop \/ exists n, e = RErr n) /\
+                     nth_error (prog co) (rk r) = Some a /\ aconsume a = Some (o, false)) /\
+  (cst co = ADone -> exists ob, nth_error (objs s) (own co) = Some ob /\ ow ob = WRes).
+Proof.
+  destruct K as (_ & _ & _ & _ & _ & _ & (H1 & H2 & H3 & H4) & _). split; [|split; [|split; [|split]]].
+  - rewrite H1. destruct (cst co); simpl; split; intros; try discriminate; try tauto; split; discriminate.
+  - intros N. destruct (H2 N) as (ob & A1 & A2 & A3). exists ob. split; auto. rewrite A3.
+    destruct (cend co); simpl; auto. congruence.
+  - intros r E. rewrite E in H4. auto.
+  - intros e E. rewrite E in H4. destruct H4 as (l & r & a & o & A1 & A2 & A3 & A4 & A5).
+    exists l, r, a, o. repeat split; auto. destruct e; simpl in A3; try discriminate; eauto.
+  - intros Hs. assert (N : cend co <> Running). { intros X. apply H1 in X. rewrite Hs in X. discriminate. }
+    destruct (H2 N) as (ob & A1 & A2 & A3). exists ob. split; auto. specialize (H3 ob A1 A2). rewrite Hs in H3.
+    simpl in H3. destruct (ow ob); auto. discriminate.
+Qed.
+
+(* Await(fs...) / AwaitSticky / AwaitOn leave every future ready: word kResult, Result constructed *)
+Lemma await_leaves_ready :
+  forall r a, In r (resumes co) -> nth_error (prog co) (rk r) = Some a ->
+  forall o, In o (aobjs a) ->
+    exists ob v, nth_error (objs s) o = Some ob /\ ow ob = WRes /\ oslot ob = Some v.
+Proof.
+  intros r a Hi Ha o Ho. destruct resume_once_after as (_ & _ & R). specialize (R r a Hi Ha o Ho).
+  unfold ocomplete in R. destruct (nth_error (objs s) o) as [ob|]; try discriminate.
+  unfold complete in R. destruct (ow ob); try discriminate. destruct (oslot ob) eqn:E; try discriminate. eauto.
+Qed.
+
+(* where *)
+Lemma where_resumed :
+  forall r a, In r (resumes co) -> nth_error (prog co) (rk r) = Some a ->
+    where_ok (objs s) a (rhow r) (rthr r) (rexec r) (rown r).
+Proof.
+  destruct K as (_ & _ & _ & _ & (_ & E2 & _) & _). intros r a Hi Ha.
+  rewrite Forall_forall in E2. destruct (E2 r Hi) as (_ & _ & R3). destruct (R3 a Ha) as (_ & A2 & _). exact A2.
+Qed.
+
+(* dropped *)
+Lemma dropped_completed :
+  cend co = Dropped ->
+  (cst co = AFinal \/ cst co = ADone) /\
+  exists ob, nth_error (objs s) (own co) = Some ob /\ oprod ob = Some c /\ oslot ob = Some RStop /\
+             (cst co = ADone -> ow ob = WRes) /\ (cst co = AFinal -> exists l, ow ob = WStack l).
+Proof.
+  intros E. destruct K as (_ & _ & _ & _ & _ & _ & (H1 & H2 & H3 & _) & _).
+  assert (N : cend co <> Running) by congruence. split.
+  - destruct (cst co) eqn:Hs; auto; exfalso; apply N; apply H1; reflexivity.
+  - destruct (H2 N) as (ob & A1 & A2 & A3). exists ob. rewrite E in A3. repeat split; auto.
+    + intros Hs. specialize (H3 ob A1 A2). rewrite Hs in H3. destruct (ow ob); auto. discriminate.
+    + intros Hs. specialize (H3 ob A1 A2). rewrite Hs in H3. destruct (ow ob); eauto. discriminate.
+Qed.
+
+Lemma frame_once :
+  ldtors co <= 1 /\ ffrees co <= 1 /\ (llive co = true <-> ldtors co = 0) /\ (fowner co = true <-> ffrees co = 0) /\
+  (fowner co = false -> ffrees co = 1 /\ ldtors co = 1 /\ llive co = false /\ cst co = ADone).
+Proof.
+  destruct K as (_ & _ & _ & _ & _ & (F1 & F2) & _).
+  assert (Hd : is_done (cst co) = true -> cst co = ADone). { destruct (cst co); simpl; auto; discriminate. }
+  destruct F1 as [[A1 A2]|[A1 A2]]; destruct F2 as [[B1 B2]|(B1 & B2 & B3 & B4)];
+    rewrite ?A1, ?A2, ?B1, ?B2 in *; repeat split; intros; auto; try lia; try discriminate; try congruence.
+Qed.
+
+(* the drop's final exchange is enabled: the coroutine does get completed *)
+Lemma dropped_progress :
+  cend co = Dropped -> cst co = AFinal -> exists s', step s (EXchg (on co) (own co)) = Some s'.
+Proof.
+  intros E Hs. destruct (dropped_completed E) as (_ & ob & A1 & A2 & A3 & _ & A5). destruct (A5 Hs) as (l & Eow).
+  unfold step. simpl. unfold step_xchg. rewrite A1, Eow, A2, Hco, Hs, !Nat.eqb_refl. unfold dropped. rewrite E. simpl. eauto.
+Qed.
+
+Lemma await_ready_sound : Forall (fun p => fst p = true -> snd p = true) (readys co).
+Proof. destruct K as (_ & _ & _ & _ & (_ & _ & E3) & _). exact E3. Qed.
+
+End Reach.
+
+(* an executor dropping a queued coroutine marks it dropped, at once *)
+Lemma drop_drops s t x c s' :
+  step s (EDrop t x c) = Some s' -> exists co', nth_error (cos s') c = Some co' /\ cend co' = Dropped /\ cst co' = AFinal.
+Proof.
+  unfold step. simpl. intros H. destruct (dequeue x c s) as [s1|]; try discriminate.
+  destruct (nth_error (cos s1) c) as [co|] eqn:Hc; try discriminate.
+  apply store_own_spec in H. destruct H as (co1 & ob & H1 & _ & _ & _ & ->).
+  simpl in H1. erewrite nth_error_upd_eq in H1 by eauto. inversion H1; subst co1.
+  eexists. split. simpl. eapply nth_error_upd_eq; eauto. split; reflexivity.
+Qed.
 
 End Reach.
